@@ -227,6 +227,9 @@ class C05(Prop):
                 yield ("ITER " + hx(f + f[:-cut]), "special-checksum-truncated", True)
         for total, f in big_cases(r)[::2]:
             yield ("BIGSCAN %d %s" % (total, hx(f)), "gigabyte-buffer", True)
+        for s in overlap_cases(r):
+            yield ("SCAN " + hx(s), "overlapping-candidates", True)
+            yield ("ITER " + hx(s), "overlapping-candidates", True)
         for s in preamble_floods(r):
             yield ("XSCAN " + hx(s), "false-preamble-flood", True)
             yield ("XITER " + hx(s), "false-preamble-flood", True)
@@ -291,6 +294,10 @@ class C06(Prop):
                 ops.append("a" + hx(p))
                 ops += ["s"] * r.choice([0, 0, 1, 1, 2, 3])
             yield ("SCHED " + "|".join(ops), "schedule", len(parts) >= 2)
+        for s in overlap_cases(r)[::3]:
+            cuts = sorted(set(r.randrange(0, len(s) + 1) for _ in range(r.randrange(1, 4))))
+            parts = [s[a:b] for a, b in zip([0] + cuts, cuts + [len(s)])]
+            yield ("FEED " + "|".join(hx(p) for p in parts), "overlapping-candidates", True)
         for s in damaged_repeats(r, 4):
             for k in range(3):
                 cuts = sorted(set(r.randrange(0, len(s) + 1) for _ in range(r.randrange(1, 4))))
